@@ -7,8 +7,14 @@ import HumphreyModel.Model.WsFrame
 namespace Humphrey.Driver.C03
 open Humphrey Humphrey.Driver Humphrey.Driver.HttpD Humphrey.Http Humphrey.IO
 
-def classOf {ε α : Type} : Outcome ε α → String
-  | .ok _ => "ok" | .err _ => "err" | .panic => "PANIC"
+def classOf {ε α : Type} (kind : ε → String) : Outcome ε α → String
+  | .ok _ => "ok" | .err e => "err:" ++ kind e | .panic => "PANIC"
+
+def reqKind : ReqErr → String
+  | .request => "Request" | .stream => "Stream" | .disconnected => "Disconnected" | .timeout => "Timeout"
+
+def respKind : RespErr → String
+  | .response => "Response" | .stream => "Stream"
 
 /-- `<ok|err|PANIC|ABORT|TIMEOUT|notutf8> mem=<ok|EXCESS:n>`: C03 demands a value or an error, and
 bounded memory, for EVERY input. -/
@@ -30,10 +36,10 @@ def dispatch (fn : String) (args : List String) (impl : String) : Option Verdict
   | "p_req", [bytes, cuts] =>
     (unhex bytes).bind fun bs =>
       let env : Env := ⟨strBytes "127.0.0.1", 9, fun _ => none⟩
-      mk (classOf (parseRequest readerSource env (⟨[], applyCuts bs cuts⟩ : Reader)))
+      mk (classOf reqKind (parseRequest readerSource env (⟨[], applyCuts bs cuts⟩ : Reader)))
   | "p_resp", [bytes, cuts] =>
     (unhex bytes).bind fun bs =>
-      mk (classOf (parseResponse readerSource (⟨[], applyCuts bs cuts⟩ : Reader)))
+      mk (classOf respKind (parseResponse readerSource (⟨[], applyCuts bs cuts⟩ : Reader)))
   | "p_ws", [bytes, cuts] =>
     (unhex bytes).bind fun bs =>
       mk (match WsFrame.decodeFrame (applyCuts bs cuts) with | .ok _ => "ok" | .error _ => "err")
